@@ -37,6 +37,22 @@ fn masks(n: usize, np: usize, maxexh: usize) -> Vec<Vec<bool>> {
 
 fn main() {
     let args: Vec<String> = std::env::args().collect();
+    if args.len() >= 3 && args[1] == "probe" {
+        // c08 probe <file.sy>...: compile hand-written programs (analysis aid, not part of the check)
+        for f in &args[2..] {
+            let src = std::fs::read_to_string(f).unwrap_or_else(|e| tool_error(&format!("{}: {}", f, e)));
+            match vharness::compile(&Project::single(&src)) {
+                CompileResult::Ok { lua } => println!("{}: ok {}", f, hex(fnv(&lua))),
+                CompileResult::Err { errors, .. } => println!(
+                    "{}: err {}",
+                    f,
+                    errors.iter().map(|e| format!("{}:{} {}", e.file, e.line, e.message)).collect::<Vec<_>>().join(" | ")
+                ),
+                CompileResult::Panic { message, .. } => println!("{}: panic {}", f, message),
+            }
+        }
+        return;
+    }
     if args.len() < 5 || args[1] != "record" {
         tool_error("usage: c08 record <cases> <trace> <maxexh>");
     }
